@@ -111,7 +111,9 @@ Definition spec (k:dcase) (obs:tape) : option (N * tape) :=
       else match pBytes rest with Some (_, r2) => check_req r2 | None => Some (199, []) end
   | 2 :: n :: rest =>
       if reply_proves_acceptance k && reply_wf k then Some (121, [])               (* a proving reply was refused *)
-      else if 1024 <? n then Some (122, [n]) else check_req rest
+      else if 1024 <? n then Some (122, [n])
+      else if n <? N.min 1024 (p_body_len (c_reply k)) then Some (118, [n; p_body_len (c_reply k)])   (* body not kept *)
+      else check_req rest
   | 0 :: _ | 1 :: _ => if c_sent k then Some (123, []) else None                   (* refused, yet something was sent *)
   | 3 :: rest => check_req rest
   | _ => Some (199, [])
